@@ -120,6 +120,10 @@ out += ["```", "",
 bn = os.path.join(R, "seeded", "BENIGN.log")
 if os.path.exists(bn):
     out += [l.rstrip()[:200] for l in open(bn) if l.startswith(("SILENT", "FALSE-ALARM", "INVALID", "SKIP"))]
+bn2 = os.path.join(R, "seeded", "BENIGN-after-round8.log")
+if os.path.exists(bn2):
+    out += ["```", "", "After the eighth round of seeded changes, against the sixteen checks that were changed in the last session:", "", "```"]
+    out += [l.rstrip()[:200] for l in open(bn2) if l.startswith(("SILENT", "FALSE-ALARM", "INVALID", "SKIP"))]
 out += ["```", "",
 "### 8.4 Runs on the unchanged tree at the end of the work", "",
 "Against /repo at 0197c53 (54 `fix:` commits after the pinned commit; the 279 tests pass with the hooks off): the quick tier of all twenty checks at seeds 1-27 (`tools/sweep.sh`), the thorough tier at seed 1 (twice: before and after the last three repairs), seeds 2, 3 and 4 (`tools/thorough_all.sh`, 50-70 minutes each) - the six KNOWN-FINDING lines of K-SELSCOPE from C14 in every run. These runs raised two alarms on the unchanged tree, both false and both from rules added in the last hours (section 7.1): C09 in the thorough tier (corrected in the model) and C01 at seed 8 (the rule was dropped); after the corrections the affected runs were repeated and are silent. The committed evidence files are from the quick tier at seed 1.",
